@@ -168,6 +168,8 @@ let print_static l statics =
         let nd = needed (z_of_int n) (z_of_int b) e in
         Printf.printf "NEEDED %d %d : %d %d\n" n b (int_of_z nd) (int_of_z (units l nd))) statics
 
+exception Timeout
+
 let () =
   let file = Sys.argv.(1) in
   let ic = open_in file in
@@ -203,8 +205,33 @@ let () =
   close_in ic;
   let l = List.rev !params in
   if not !multi then print_static l (List.rev !statics);
+  (* a section whose state has been corrupted (e.g. by the overlapping erase of the known
+     finding) can decode astronomically large object counts: bound the time per section and
+     print the observations of the longest prefix that completes *)
+  let limit = try float_of_string (Sys.getenv "MODEL_SECTION_LIMIT") with Not_found -> 20.0 in
+  let timed f =
+    let old = Sys.signal Sys.sigalrm (Sys.Signal_handle (fun _ -> raise Timeout)) in
+    ignore (Unix.setitimer Unix.ITIMER_REAL { Unix.it_interval = 0.0; Unix.it_value = limit });
+    let stop () = ignore (Unix.setitimer Unix.ITIMER_REAL { Unix.it_interval = 0.0; Unix.it_value = 0.0 }); Sys.set_signal Sys.sigalrm old in
+    match f () with
+    | r -> stop (); Some r
+    | exception Timeout -> stop (); None in
+  let rec take_n n l = if n = 0 then [] else match l with x :: r -> x :: take_n (n-1) r | [] -> [] in
   List.iter (fun (id, ops) ->
     Printf.printf "BEGIN %s\n" id;
-    (try List.iter print_obs (run !k l ops)
+    (try
+       match timed (fun () -> run !k l ops) with
+       | Some obs -> List.iter print_obs obs
+       | None ->
+           (* longest prefix that completes within the limit *)
+           let lo = ref 0 and hi = ref (List.length ops) and best = ref [] in
+           while !hi - !lo > 1 do
+             let mid = (!lo + !hi) / 2 in
+             (match timed (fun () -> run !k l (take_n mid ops)) with
+              | Some obs -> lo := mid; best := obs
+              | None -> hi := mid)
+           done;
+           List.iter print_obs !best;
+           Printf.printf "MODELTIMEOUT after %d steps\n" !lo
      with Stack_overflow | Out_of_memory -> Printf.printf "MODELFAIL\n");
     Printf.printf "END\n") (List.rev !scripts)
